@@ -270,3 +270,133 @@ def run(rep, tier):
     rep.assume("iteration order of a set whose elements are ints / tuples / frozensets of ints does not depend on PYTHONHASHSEED",
                "iteration order of any other set is arbitrary",
                "partial: only the secondary-structure outputs of rnapolis.common are covered")
+
+
+# ======================================================================================================
+# extensions: Mapping2D3D under arbitrary set order (E2 schedule), repeated calls in one process
+# ======================================================================================================
+def job_mapping(entries):
+    """the real Mapping2D3D with `set` in rnapolis.tertiary replaced by the order-nondeterministic stand-in; the schedule is a
+    symbolic integer per choice point, concretised by the E2 explorer (all permutations of sets with <= 4 elements)"""
+    import sys
+    sys.path.insert(0, "/verif")
+    import z3
+    from symx.engine import Engine
+    import rnapolis.tertiary as T
+    from rnapolis.tertiary import Mapping2D3D, Structure3D
+    from harness import c06
+    c06._fast_solver()
+    eng = Engine(timeout_ms=10000)
+    counter = {"n": 0}
+
+    class ESet(NDSet):
+        def _order(self):
+            k = len(self.items)
+            if k < 2 or all(_det(x) for x in self.items):
+                try:
+                    return list(_real_set(self.items))
+                except TypeError:
+                    return list(self.items)
+            perms = list(itertools.permutations(range(k))) if k <= 4 else [tuple(range(k)), tuple(reversed(range(k)))]
+            counter["n"] += 1
+            c = eng.int(f"order{counter['n']}", 0, len(perms) - 1)
+            return [self.items[i] for i in perms[c.concretize()]]
+    residues = c06.structures()["contiguous"]
+    T.set = ESet
+    try:
+        def run():
+            counter["n"] = 0
+            m = Mapping2D3D(Structure3D(list(residues)), c06.build_pairs(residues, entries), [], False)
+            return [str(m.bpseq), m.dot_bracket, m.extended_dot_bracket, list(m.all_dot_brackets)]
+        paths = eng.explore(run, maxpaths=2000)
+    finally:
+        del T.__dict__["set"]
+    outs = {}
+    for path, out in paths:
+        outs.setdefault(repr(out), 0)
+        outs[repr(out)] += 1
+    return {"entries": [list(e) for e in entries], "paths": len(paths), "distinct_outputs": len(outs), "queries": eng.nq, "solver_s": round(eng.tq, 3),
+            "choice_points": counter["n"]}
+
+
+REPLAY_MAPPING = '''
+import subprocess, json
+entries = {entries!r}
+code = """
+import sys, os, json, logging
+sys.path.insert(0, os.environ["VERIF_REPO_SRC"]); sys.path.insert(0, {verif!r}); logging.disable(logging.CRITICAL)
+from harness import c06
+from rnapolis.tertiary import Mapping2D3D, Structure3D
+c06._fast_solver()
+entries = [tuple(e) for e in json.loads(sys.argv[1])]
+res = c06.structures()["contiguous"]
+m = Mapping2D3D(Structure3D(list(res)), c06.build_pairs(res, entries), [], False)
+print(json.dumps([str(m.bpseq), m.dot_bracket, m.extended_dot_bracket, list(m.all_dot_brackets)]))
+"""
+outs = set()
+for seed in range(32):
+    env = dict(os.environ); env["PYTHONHASHSEED"] = str(seed)
+    r = subprocess.run([sys.executable, "-c", code, json.dumps(entries)], capture_output=True, text=True, env=env)
+    outs.add(r.stdout)
+print(len(outs), "distinct outputs over PYTHONHASHSEED 0..31 for", entries)
+sys.exit(1 if len(outs) > 1 else 0)
+'''
+
+REPLAY_REPEAT = '''
+import tempfile, os
+from rnapolis.adapter import parse_fr3d_output
+d = tempfile.mkdtemp(); p = os.path.join(d, "fr3d.txt")
+open(p, "w").write("1ABC|1|A|G|1\\tcWW\\t1ABC|1|A|C|10\\t0\\n1ABC|1|A|U|3\\ts35\\t1ABC|1|A|A|4\\t\\n")
+c = lambda r: (len(r.basePairs), len(r.stackings), len(r.baseRiboseInteractions), len(r.basePhosphateInteractions), len(r.otherInteractions))
+a = c(parse_fr3d_output(p)); b = c(parse_fr3d_output(p))
+print("first call", a, "second call", b); sys.exit(1 if a != b else 0)
+'''
+
+_run_common = run
+
+
+def run(rep, tier):   # noqa: F811
+    from vlib.core import Violation, VERIF
+    from vlib.par import pmap, Crashed
+    _run_common(rep, tier)
+    # Mapping2D3D: pair lists in which one residue takes part in two canonical pairs (the conflict resolution iterates a set)
+    from harness import c06
+    ents, nq, dt = c06.enumerate_inputs(2, 1, 1)
+    rep.add(transitions=nq, solver_s=dt)
+    conflicting = [e for e in ents if len({e[0][0], e[0][1]} & {e[1][0], e[1][1]}) == 1 and 4 not in (e[0][0], e[0][1], e[1][0], e[1][1])]
+    if tier == "quick":
+        conflicting = conflicting[::3]
+    results = pmap(job_mapping, conflicting)
+    n = 0
+    for e, r in zip(conflicting, results):
+        if isinstance(r, Crashed):
+            rep.harness_error(f"mapping job {e} crashed: {r.why}")
+            continue
+        n += 1
+        rep.add(states=r["paths"], transitions=r["queries"], solver_s=r["solver_s"], obligations=1, discharged=1)
+        rep.cov["choice_points_reached"] = rep.cov.get("choice_points_reached", 0) + r["choice_points"]
+        if r["distinct_outputs"] > 1:
+            rep.violation(Violation("Mapping2D3D:order", f"Mapping2D3D outputs depend on set iteration order for pair list {r['entries']} "
+                                    f"({r['distinct_outputs']} different outputs over {r['paths']} schedules)",
+                                    REPLAY_MAPPING.format(entries=r["entries"], verif=VERIF), witness=r["entries"]))
+    rep.sample({"mapping_inputs": n, "example": [list(x) for x in conflicting[0]] if conflicting else None})
+    # repeated calls in one process (history independence of the FR3D importer): the symbolic-line harness of C19 calls it twice
+    from harness import c19
+    r = pmap(c19.job_file, [0])[0]
+    if isinstance(r, Crashed):
+        rep.harness_error(f"repeat job crashed: {r.why}")
+    else:
+        rep.add(states=r["paths"], transitions=r["queries"], solver_s=r["solver_s"])
+        for v in r["verdicts"]:
+            if v["key"].endswith(":repeat"):
+                rep.add(obligations=1, discharged=1)
+                if v["v"] == "sat":
+                    rep.violation(Violation("adapter.parse_fr3d_output:repeat", v["ob"], REPLAY_REPEAT, witness="repeat"))
+            elif v["ob"] == "two calls agree":
+                rep.add(obligations=1, discharged=1)
+    rep.add(functions_encoded=["Mapping2D3D.bpseq / _generated_bpseq_data (conflict resolution over sets)", "Mapping2D3D.dot_bracket / extended_dot_bracket / "
+                               "all_dot_brackets", "adapter.parse_fr3d_output (two calls in one process)"],
+            stubs=["set in rnapolis.tertiary replaced by the order-nondeterministic stand-in (schedule explored by the E2 engine)"],
+            engines=["E2 symx (schedule integers concretised by forking)"])
+    rep.cov["bounds"]["mapping"] = "pair lists of 2 cWW entries over 4 residues in which one residue has two partners; every permutation of every set of <= 4 elements"
+    rep.cov["bounds"]["repeat"] = "FR3D listing of 9 lines (one symbolic) imported twice in one process"
